@@ -5,19 +5,46 @@ import TB.Spec.ExportSpec
 import TB.Lemmas.RunC
 import TB.Props.C02
 namespace TB
-
+open TB.RC
 /-- the registered export image is the first candidate: it is the only path of similarity 0 -/
 theorem C04_export_first (e : TEntry) (m : List (Path × Nat)) (obs : List Path) (i : Nat)
     (h : validSearches e m obs = true) (hm : (e.fullTarget, i) ∈ m)
     (huniq : ∀ x ∈ m, x.1 = e.fullTarget → x.2 = i) :
     obs.head? = some e.fullTarget := by
-  sorry
+  have _ := huniq
+  obtain ⟨p, hp, _, hsim⟩ := validSearches_mem h _ hm
+  have h0 : similarity e.fullTarget e.partialTarget e.fullTarget = 0 := similarity_eq_zero.2 rfl
+  simp only [h0, Nat.le_zero_eq] at hsim
+  have hpe : p = e.fullTarget := similarity_eq_zero.1 hsim
+  subst hpe
+  cases hobs : obs with
+  | nil => rw [hobs] at hp; cases hp
+  | cons a l =>
+    have := validSearches_head h a l hobs _ hp
+    rw [h0, Nat.le_zero_eq] at this
+    rw [similarity_eq_zero.1 this]
+    rfl
 
 /-- segments whose source is their own export image (and padding) are skipped: nothing is logged, nothing changes -/
 theorem C04_skip (st : St) (pairs : List (WSeg × Option Path)) (buf : Bytes) (start : Nat)
     (h : ∀ x ∈ pairs, x.1.ent.isPad = true ∨ x.2 = some x.1.ent.fullTarget) :
     writeSegs st pairs buf start = (st, .found) := by
-  sorry
+  induction pairs generalizing start with
+  | nil => rfl
+  | cons x rest ih =>
+    obtain ⟨seg, src⟩ := x
+    have hrest : ∀ x ∈ rest, x.1.ent.isPad = true ∨ x.2 = some x.1.ent.fullTarget :=
+      fun y hy => h y (List.mem_cons_of_mem _ hy)
+    simp only [writeSegs]
+    rcases h (seg, src) (by simp) with hp | hs
+    · simp only at hp
+      rw [if_pos hp]
+      exact ih _ hrest
+    · simp only at hs
+      split
+      · exact ih _ hrest
+      · rw [if_pos (by simp [hs])]
+        exact ih _ hrest
 
 /-- the all-first combination is tried first -/
 theorem C04_first_combination (H : Bytes → Bytes) (hash : Bytes) (loaded : List (List (Option Path × Bytes)))
@@ -26,7 +53,25 @@ theorem C04_first_combination (H : Bytes → Bytes) (hash : Bytes) (loaded : Lis
     (chosen : List (Option Path × Bytes))
     (hh : H ((chosen ++ firsts).flatMap (·.2)) = hash) :
     searchProduct H hash loaded chosen = some (chosen ++ firsts) := by
-  sorry
+  induction loaded generalizing chosen firsts with
+  | nil =>
+    have : firsts = [] := List.eq_nil_of_length_eq_zero hlen
+    subst this
+    simp only [List.append_nil] at hh ⊢
+    simp [searchProduct, hh]
+  | cons cands rest ih =>
+    cases firsts with
+    | nil => simp at hlen
+    | cons c firsts =>
+      simp only [searchProduct]
+      have hc : cands.head? = some c := by
+        have := hfirst 0 (by simp) (by simp)
+        simpa using this
+      refine firstM_option_head hc ?_
+      have := ih firsts (by simpa using hlen) (fun k hk hl => by
+        have := hfirst (k + 1) (by simpa using hk) (by simpa using hl)
+        simpa using this) (chosen ++ [c]) (by simpa using hh)
+      simpa using this
 
 /-- piece level (clause b): a piece that verifies in the export tree, with every non-padding segment's export
     image of the declared length and listed first among its candidates, is found and evaluating it performs no
@@ -41,10 +86,82 @@ theorem C04b_untouched (H : Bytes → Bytes) (st : St) (w : Work)
     (hver : VerE H st.fs w) :
     (solvePiece H st w).2 = .found ∧ (solvePiece H st w).1.fs = st.fs ∧
     ∀ o ∈ newOps st (solvePiece H st w).1, o.kind.mutating = false := by
-  sorry
+  have _ := hsegs
+  suffices hmain : ∃ st1, solvePiece H st w = (st1, .found) ∧ ROExt st st1 by
+    obtain ⟨st1, heq, e⟩ := hmain
+    rw [heq]
+    exact ⟨rfl, e.fs, e.newOps⟩
+  obtain ⟨parts, hparts, hphash⟩ := hver
+  have hparts' := mapM_option_some hparts []
+  -- no segment is rejected up front
+  have hnorej : (w.segs.any (fun s => !s.ent.isPad && s.ent.searches.isNone && s.len != 0)) = false := by
+    rw [Bool.eq_false_iff]
+    intro hrej
+    obtain ⟨s, hs, hcond⟩ := List.any_eq_true.1 hrej
+    simp only [Bool.and_eq_true, Bool.not_eq_true', bne_iff_ne, ne_eq, Option.isNone_iff_eq_none] at hcond
+    obtain ⟨_, _, hsome, _⟩ := hfirst s hs hcond.1.1
+    rw [hcond.1.2] at hsome
+    cases hsome
+  unfold solvePiece
+  simp only [hnorej, Bool.false_eq_true, if_false]
+  split
+  · -- a single segment
+    rename_i seg hseg
+    have hH : H ((segBytesIn st.fs seg).getD []) = w.hash := by
+      rw [hparts', hseg] at hphash
+      simpa using hphash
+    have hmem : seg ∈ w.segs := by rw [hseg]; simp
+    cases hpad : seg.ent.isPad with
+    | true =>
+      have : segBytesIn st.fs seg = some (List.replicate seg.len 0) := by simp [segBytesIn, hpad]
+      rw [this] at hH
+      simp only [Option.getD_some] at hH
+      simp only [if_true]
+      rw [if_pos (by simp [hH])]
+      exact ⟨st, rfl, ROExt.refl st⟩
+    | false =>
+      obtain ⟨rest, i, hs, hi, hle⟩ := hfirst seg hmem hpad
+      have : segBytesIn st.fs seg = some (st.fs.readAt i seg.off seg.len) := by simp [segBytesIn, hpad, hi, hle]
+      rw [this] at hH
+      simp only [Option.getD_some] at hH
+      simp only [Bool.false_eq_true, if_false, hs, scanSingle]
+      rw [readBytes_nff hnf hi]
+      simp only
+      rw [if_pos (by simp [hH])]
+      simp only
+      refine ⟨_, C04_skip _ _ _ _ ?_, readBytes_ext _ _ _ _⟩
+      intro x hx
+      rw [List.mem_singleton] at hx
+      subst hx
+      exact Or.inr rfl
+  · -- several segments
+    obtain ⟨loaded, hl⟩ := preload_ok hnf hreadable
+    have e := preload_ext st w.segs
+    have hpre : preload st w.segs = ((preload st w.segs).1, .ok loaded) := by rw [← hl]
+    obtain ⟨hll, hcand⟩ := forall₂_getElem? (preload_spec hpre)
+    have hfirsts : ∀ k (hk : k < (w.segs.map (firstOf st.fs)).length) (hl : k < loaded.length),
+        loaded[k].head? = some (w.segs.map (firstOf st.fs))[k] := by
+      intro k hk hl
+      have hk' : k < w.segs.length := by omega
+      rw [List.getElem_map]
+      exact cand_head (hcand k _ _ (List.getElem?_eq_getElem hk') (List.getElem?_eq_getElem hl))
+        (hfirst _ (List.getElem_mem hk'))
+    have hflat : H ((([] : List (Option Path × Bytes)) ++ w.segs.map (firstOf st.fs)).flatMap (·.2)) = w.hash := by
+      rw [← hphash, hparts', List.nil_append, List.flatMap_def, List.map_map]
+      rfl
+    have hsearch := C04_first_combination H w.hash loaded (w.segs.map (firstOf st.fs)) (by simp [hll]) hfirsts [] hflat
+    rw [hpre]
+    simp only [hsearch]
+    refine ⟨_, C04_skip _ _ _ _ ?_, e⟩
+    intro x hx
+    rw [List.nil_append, List.map_map] at hx
+    have := mem_zip_map_self _ _ x hx
+    rw [this]
+    simp only [Function.comp, firstOf]
+    cases x.1.ent.isPad <;> simp
 
 /-- reads never change the tree -/
 theorem C04_reads_pure (st : St) (p : Path) (len off : Nat) : (st.readBytes p len off).1.fs = st.fs := by
-  sorry
+  exact (readBytes_ext st p len off).fs
 
 end TB
